@@ -434,6 +434,12 @@ example : parse (some [49, 46, 49, 49, 46, 48]) = some ⟨1, 11, 0⟩ := by deci
 example : dec 1234 = [49, 50, 51, 52] := by simp [dec]
 /-- "2.4.0-rc" -/
 example : parse (some [50, 46, 52, 46, 48, 45, 114, 99]) = some ⟨2, 4, 0⟩ := by decide
+/-- the provider's own version followed by text that is not a `-` suffix is malformed, not compatible
+    (the requirement strings of seeded change C14-9: "1.1.0rc1", "1.1.0x", "1.1.0 beta"; tests, not theorems —
+    the general statement is `parseField_sound`: a field is blanks, a sign, digits and nothing else) -/
+example : parse (some [49, 46, 49, 46, 48, 114, 99, 49]) = none ∧ parse (some [49, 46, 49, 46, 48, 120]) = none ∧
+    parse (some [49, 46, 49, 46, 48, 32, 98, 101, 116, 97]) = none := by decide
+example : modelEnabled false [49, 46, 49, 46, 48] [some (some [49, 46, 49, 46, 48, 114, 99, 49])] = none := by decide
 /-- provider 2.4.0; one thread without the model, one requiring 2.3.9 -/
 example : modelEnabled false [50, 46, 52, 46, 48]
     [some none, some (some [50, 46, 51, 46, 57])] = some true := by decide
